@@ -45,7 +45,7 @@ def gen(tier, rng, harness=None):
                 if -(2**(w - 1)) <= x < 2**w:
                     lines.append("!int.rt %d %d" % (w, x))
                 if 0 <= x < 2**w:
-                    for form in ("dec", "u0x", "u0xl", "s0x"):
+                    for form in ("dec", "dec0", "u0x", "u0xl", "s0x"):
                         lines.append("!int.sem %d %s %d" % (w, form, x))
                 elif x < 0:
                     lines.append("!int.sem %d dec %d" % (w, x))
@@ -59,12 +59,12 @@ def gen(tier, rng, harness=None):
                 if -(2**(w - 1)) <= x < 2**w:      # representable in iW (signed or unsigned reading)
                     lines.append("!int.rt %d %d" % (w, x))
                 if x >= 0 and w > 1:
-                    form = rng.choice(["dec", "u0x", "u0xl", "s0x"])
+                    form = rng.choice(["dec", "dec0", "u0x", "u0xl", "s0x"])
                     if form == "s0x" and x >= 2**w:
                         form = "u0x"
                     lines.append("!int.sem %d %s %d" % (w, form, x))
                 elif w > 1:
-                    lines.append("!int.sem %d dec %d" % (w, x))
+                    lines.append("!int.sem %d %s %d" % (w, rng.choice(["dec", "dec0"]), x))
             # parser on arbitrary spellings (valid and malformed)
             for _ in range(6):
                 k = rng.random()
@@ -107,7 +107,10 @@ def search(ln, a, b, harness, driver):
         try:
             if t.startswith("u0x"): cands.append("!int.sem %d %s %d" % (w, "u0x" if t[3:].upper() == t[3:] else "u0xl", int(t[3:], 16)))
             elif t.startswith("s0x") and int(t[3:], 16) < 2**w: cands.append("!int.sem %d s0x %d" % (w, int(t[3:], 16)))
-            else: cands.append("!int.sem %d dec %d" % (w, int(t)))
+            else:
+                cands.append("!int.sem %d dec %d" % (w, int(t)))
+            for v in (8, 9, 10, 64, 127, 100000):
+                cands.append("!int.sem %d dec0 %d" % (max(w, 32), v))
         except ValueError:
             pass
     if not cands:
